@@ -155,6 +155,10 @@ func runVariant(v variant, repo, verifDir, id string) variantResult {
 		res.status = "missed"
 	case !v.expect && reported:
 		res.status, res.detail = "false-alarm", first
+		if why := knownBenignAlarm(verifDir, v.name, id); why != "" {
+			res.status = "known-limitation"
+			res.detail = first + " -- " + why
+		}
 	default:
 		res.status = "silent"
 	}
@@ -213,13 +217,36 @@ func selfValidate(c *Check, id, repo, verifDir string) {
 			fmt.Printf("CONTROL-MISSED  %-8s %s: the change was not reported\n", r.kind, r.name)
 		case "false-alarm":
 			fmt.Printf("CONTROL-FALSE-ALARM %-8s %s: %s\n", r.kind, r.name, r.detail)
+		case "known-limitation":
+			fmt.Printf("CONTROL known-limitation %-8s %s: %s\n", r.kind, r.name, r.detail)
 		}
 	}
 	c.Tables["self_validation"] = table
-	c.Notes = append(c.Notes, fmt.Sprintf("self-validation on scratch copies: %d variants (%d detected, %d benign silent, %d missed, %d false alarms, %d skipped)", len(vs), counts["detected"], counts["silent"], counts["missed"], counts["false-alarm"], counts["skipped"]))
+	c.Notes = append(c.Notes, fmt.Sprintf("self-validation on scratch copies: %d variants (%d detected, %d benign silent, %d missed, %d false alarms, %d skipped)", len(vs), counts["detected"], counts["silent"], counts["missed"], counts["false-alarm"]+counts["known-limitation"], counts["skipped"]))
 }
 
 func dirExists(p string) bool {
 	st, err := os.Stat(p)
 	return err == nil && st.IsDir()
+}
+
+// knownBenignAlarm: selftest/known_benign_alarms.txt lists behaviour-preserving
+// rewrites on which a check is known to alarm (a documented limitation of the
+// checker, DESIGN section 8): "<patch name> <property|*> <reason>".
+func knownBenignAlarm(corpus, variant, prop string) string {
+	bs, err := os.ReadFile(filepath.Join(corpus, "selftest", "known_benign_alarms.txt"))
+	if err != nil {
+		return ""
+	}
+	name := strings.TrimPrefix(variant, "benign/")
+	for _, line := range strings.Split(string(bs), "\n") {
+		f := strings.Fields(line)
+		if len(f) < 3 || strings.HasPrefix(f[0], "#") {
+			continue
+		}
+		if f[0] == name && (f[1] == prop || f[1] == "*") {
+			return "known limitation: " + strings.Join(f[2:], " ")
+		}
+	}
+	return ""
 }
